@@ -76,3 +76,6 @@ class Disposables:
 
         if len(exceptions) > 1:
             raise BaseExceptionGroup("Disposing errors", exceptions)
+
+        elif exceptions:
+            raise exceptions[0]
